@@ -239,6 +239,27 @@ def run(prog, rep):
                     rep.check(ok, "E7.l", "%s :: %s.location" % (f.id, st["rv"]["adt"].rsplit("::", 1)[-1] + ("::" + st["rv"]["variant"] if st["rv"].get("variant") and st["rv"]["variant"] != st["rv"]["adt"].rsplit("::", 1)[-1] else "")), sp_str(st["sp"]),
                               "location = %s" % canon(e)[:80], "the location of %s does not come from the parser position: %s" % (st["rv"]["adt"], canon(e)[:120]))
     rep.floor("E7.l", na, 18, "located AST aggregates")
+    # a located node built repeatedly (in a loop) must get a freshly read position on every round
+    nrep = 0
+    for f in pf:
+        body = f.body
+        reads = set()
+        for b in sorted(body.reachable()):
+            for st in body.blocks[b]["stmts"]:
+                if st["k"] == "assign" and st["rv"]["k"] == "use" and st["rv"]["op"]["k"] in ("copy", "move"):
+                    fl = [x for x in st["rv"]["op"]["p"].get("p", []) if x["k"] == "field"]
+                    if fl and fl[-1].get("adt") == "tsg::parser::Parser" and fl[-1].get("name") == "location":
+                        reads.add(b)
+        for b in sorted(body.reachable()):
+            for st in body.blocks[b]["stmts"]:
+                if st["k"] == "assign" and st["rv"]["k"] == "aggregate" and (st["rv"].get("adt") or "").startswith("tsg::ast::") and "location" in st["rv"].get("fields", []):
+                    if b not in body.reach_from(body.succ(b)):
+                        continue            # not in a loop
+                    nrep += 1
+                    stale = b not in reads and b in body.reach_from(body.succ(b), avoid=reads)
+                    rep.check(not stale, "E7.l", "%s :: %s.location re-read per round" % (f.id, st["rv"]["adt"].rsplit("::", 1)[-1]), sp_str(st["sp"]),
+                              "every round of the loop reads the parser position again", "%s is built in a loop, but a round can reuse the position read for an earlier element: later elements carry the location of the first" % st["rv"]["adt"].rsplit("::", 1)[-1])
+    rep.floor("E7.l", nrep, 1, "located AST aggregates built in loops")
     # ---- E7.s statement keyword table
     rep.rule("E7.s", "parse_statement maps each keyword to its AST statement, with the keyword's own location")
     ps = [f for f in pf if f.name == "parse_statement"]
@@ -278,6 +299,15 @@ def run(prog, rep):
                   "`attr` → AddGraphNodeAttribute / AddEdgeAttribute", "keyword `attr` builds %s" % sorted(got))
     else:
         rep.violation("E7.s", "anchor-lost:parse_statement", "", "not found")
+    # ---- E7.a the text compiled for a stanza's query
+    rep.rule("E7.a", "the query text handed to tree-sitter is the untransformed source slice of the stanza's query followed by the internal full-match capture (no trimming: a trailing `;` comment must keep its newline)")
+    from ..engines import e1_panic
+    pq = [f for f in pf if f.name == "parse_query"]
+    if len(pq) == 1:
+        rep.check(e1_panic.Ctx(prog).append_premise(pq[0], Tracer(pq[0].body)), "E7.a", "parse_query :: query text", pq[0].loc(), "Query::new(source[start..end] + \"@\" + FULL_MATCH)",
+                  "parse_query transforms the query text before appending the full-match capture (or appends something else)")
+    else:
+        rep.violation("E7.a", "anchor-lost:parse_query", "", "not found")
     # ---- E7.q sequences
     rep.rule("E7.q", "parse_sequence: every element is parsed only after the next character was compared with the end marker (an empty remainder — `[a,]` — is a valid sequence)")
     psq = [f for f in pf if f.name == "parse_sequence"]
